@@ -27,14 +27,18 @@ theorem dest_mutual_exclusion {s : Sys} (hr : Reach s) (t : Dir) : (destUsers s 
     the peer's) and no `flowMu`. -/
 theorem no_lock_held_outside_processFrame {s : Sys} (hr : Reach s) (d : Dir)
     (h : (s.side d).r.inProcessFrame = false) (t : Dir) :
-    (s.side t).dmu ≠ some (holderOf d t) ∧ (s.side d).r.isPushing t = false := by
+    (s.side t).dmu ≠ some (holderOf d t) ∧ (s.side t).fmu ≠ some d ∧ (s.side d).r.isPushing t = false := by
   have ⟨_, g2, g3⟩ := good_dmu (good_reach hr) t
-  constructor
+  have hp : (s.side d).r.isPushing t = false := by
+    cases hx : (s.side d).r <;> simp [hx, Rd.inProcessFrame] at h ⊢
+  refine ⟨?_, ?_, hp⟩
   · intro hm
     have hh : (s.side d).r.holdsDest t = true := by
       cases d <;> cases t <;> simp [holderOf] at hm <;> first | exact g2.mpr hm | exact g3.mpr hm
     cases hx : (s.side d).r <;> simp [hx, Rd.inProcessFrame] at h hh
-  · cases hx : (s.side d).r <;> simp [hx, Rd.inProcessFrame, Rd.isPushing] at h ⊢
+  · intro hf
+    have := (good_fmu (good_reach hr) t d).mpr hf
+    simp [hp] at this
 
 /-- The writer goroutine owns its relay's `destMu` exactly while it is inside `f.send`; in particular
     not in its `select` and not after it has left. -/
@@ -43,7 +47,7 @@ theorem writer_owns_only_while_sending {s : Sys} (hr : Reach s) (d : Dir) :
   have g := good_reach hr
   have ⟨g1, _, _⟩ := good_dmu g d
   refine ⟨g1.symm, ?_⟩
-  obtain ⟨_, _, _, _, _, _, _, _, _, _, _, a, b⟩ := g
+  obtain ⟨_, _, _, _, _, _, _, _, _, _, _, a, b, _⟩ := g
   cases d
   · exact a
   · exact b
@@ -54,7 +58,7 @@ theorem direct_write_unlocks_on_both_paths {s s' : Sys} {d t : Dir} {k : Option 
     (hs : (s.side d).r = .mHold t k) (h : step s (.mDone d) = some s') :
     (s'.side t).dmu = none ∧ (s'.side d).r = afterWrite d k (s.side t).wfail ∧
     ((s.side t).wfail = true → (s'.side d).r = .exiting) := by
-  obtain ⟨⟨cr, cw, cf, co, ce, cl, cs, cx, cm⟩, ⟨sr, sw, sf, so, se, sl, ss, sx, sm⟩, dn, clg, wt, rt, scc, ccc⟩ := s
+  obtain ⟨⟨cr, cw, cf, co, ce, cl, cs, cx, cm, cq⟩, ⟨sr, sw, sf, so, se, sl, ss, sx, sm, sq⟩, dn, clg, wt, rt, scc, ccc⟩ := s
   cases d <;> cases t <;> simp [Sys.side] at hs <;> subst hs <;>
     simp [step, Sys.side, Sys.setSide] at h <;> obtain ⟨_, rfl⟩ := h <;> simp [Sys.side] <;>
     intro hx <;> subst hx <;> cases k <;> rfl
@@ -67,11 +71,72 @@ theorem all_locks_free_on_return {s : Sys} (hr : Reach s) (h : s.returned = true
   have uc := good_destUsers g .c2s
   have us := good_destUsers g .s2c
   have wc := g.2.2.2.2.2.2.2.2.2.2.2.1 hc
-  have ws := g.2.2.2.2.2.2.2.2.2.2.2.2 hs
+  have ws := g.2.2.2.2.2.2.2.2.2.2.2.2.1 hs
   simp [destUsers, Sys.side, Dir.other, hc, hs, wc, ws] at uc us
-  refine ⟨?_, ?_, by simp [lockHeld, hc, hs, Rd.isPushing], by simp [lockHeld, hc, hs, Rd.isPushing]⟩
+  have free : ∀ t, lockHeld s t = false := by
+    intro t
+    cases hm : (s.side t).fmu with
+    | none => simp [lockHeld, hm]
+    | some o =>
+      have := (good_fmu g t o).mpr hm
+      cases o <;> simp [Sys.side, hc, hs] at this
+  refine ⟨?_, ?_, free _, free _⟩
   · cases hm : s.c.dmu <;> simp [hm] at uc ⊢
   · cases hm : s.s.dmu <;> simp [hm] at us ⊢
+
+/-! ### `flowMu` -/
+
+/-- The explicit owner of each `flowMu` is exactly the reader whose control state is inside
+    `emitEligibleFrames` for that relay (`pushing t _ _`): every `flowMu.Lock()` of the window paths
+    (WINDOW_UPDATE, SETTINGS: `Work.peer`, `Work.settings`, also with nothing to release, `n = 0`) and
+    of the enqueue paths (`Work.own`, `Work.data`) is matched by its `Unlock()`. -/
+theorem flow_owner_exact {s : Sys} (hr : Reach s) (t o : Dir) :
+    (s.side t).fmu = some o ↔ (s.side o).r.isPushing t = true :=
+  (good_fmu (good_reach hr) t o).symm
+
+/-- Mutual exclusion on `flowMu`: the two readers are never both inside the critical section of the
+    same relay's `flowMu`. -/
+theorem flow_mutual_exclusion {s : Sys} (hr : Reach s) (t : Dir) :
+    ¬ (s.c.r.isPushing t = true ∧ s.s.r.isPushing t = true) := by
+  intro ⟨a, b⟩
+  have ha := (good_fmu (good_reach hr) t .c2s).mp a
+  have hb := (good_fmu (good_reach hr) t .s2c).mp b
+  simp [Sys.side] at ha hb
+  rw [ha] at hb; cases hb
+
+/-- A frame that takes a `flowMu` gives it back: when the reader has pushed what the frame released
+    (nothing, for a WINDOW_UPDATE on a stream without queued frames) the `release` step is enabled and
+    leaves that `flowMu` unowned, whichever relay's it is and whatever follows (back to the `select`,
+    or on to `WriteSettings`). -/
+theorem window_update_releases_flowMu {s : Sys} {d t : Dir} {wr : Bool} (hr : Reach s)
+    (hs : (s.side d).r = .pushing t 0 wr) :
+    ∃ s', step s (.release d) = some s' ∧ (s'.side t).fmu = none ∧ lockHeld s' t = false ∧
+      (s'.side d).r = (if wr then .mWait d none else .selReading) := by
+  have _ := hr
+  obtain ⟨⟨cr, cw, cf, co, ce, cl, cs, cx, cm, cq⟩, ⟨sr, sw, sf, so, se, sl, ss, sx, sm, sq⟩, dn, clg, wt, rt, scc, ccc⟩ := s
+  cases d <;> cases t <;> cases wr <;> simp [Sys.side] at hs <;> subst hs <;>
+    simp [step, Sys.side, Sys.setSide, lockHeld]
+
+/-- The shape of seeded defect C10-J: a reader has returned from `processFrame` (a WINDOW_UPDATE whose
+    early return forgot the `Unlock`) leaving the s2c relay's `flowMu` owned by nobody's critical
+    section; the s2c reader, with a frame to enqueue, waits for it; the session has been told to end
+    and the c2s side has left. -/
+def leakedFlowMu : Sys :=
+  { c := { r := .gone }, s := { r := .lockWait .s2c 1 false, fmu := some .c2s },
+    done := true, closing := true, watcher := false }
+
+/-- Such a state is wedged for ever and is not an F10c state … -/
+theorem leaked_flowMu_wedges :
+    termed leakedFlowMu = true ∧ unstalled leakedFlowMu = true ∧ quiescent leakedFlowMu = true ∧
+    leakedFlowMu.returned = false ∧ leakedFlowMu.scClosed = false ∧ f10cBlocked leakedFlowMu = false := by decide
+
+/-- … hence not reachable: in the model no frame makes `processFrame` return with a `flowMu` held. -/
+theorem leaked_flowMu_unreachable : ¬ Reach leakedFlowMu := by
+  intro hr
+  have w := leaked_flowMu_wedges
+  rcases progress_or_f10c (good_reach hr) w.1 w.2.1 w.2.2.1 with a | b
+  · simp [leakedFlowMu] at a
+  · simp [w.2.2.2.2.2] at b
 
 /-- What the invariant excludes (the shape of seeded defect C10-C): the s2c reader has returned from
     `processFrame` — and from `relayFrames` — leaving `destMu` of the s2c relay locked; the c2s reader,
